@@ -26,6 +26,7 @@ Definition case := list item.
 Definition IOpS (o : op) (r : result) : item := IOp o r r.
 Definition ISnapD (ops : list op) (res : list (result * result)) (d : dump) : item := ISnap ops res d d.
 Definition same (r : result) : result * result := (r, r).
+Definition nf : result * result := (RErr ECount, RErr ENil).   (* not found: etcd / redis *)
 
 Definition dentry_eqb (a b : key * value * option Z) : bool :=
   key_eqb (fst (fst a)) (fst (fst b)) && value_eqb (snd (fst a)) (snd (fst b))
